@@ -334,6 +334,10 @@ func newScriptedSchema(book *scriptBook, src string, connID string, kill func())
 		}()
 		finish := func(out string) (string, any) {
 			tok := in.ID + "/" + out
+			if in.S != nil {
+				// makes values of different runs (different workflow inputs) distinguishable
+				tok = in.ID + "~" + *in.S + "/" + out
+			}
 			theSink.note("XExecEnd", "src", src, "conn", connID, "id", in.ID, "out", out)
 			if ex.BadData {
 				return out, badOutput{Tok: 7}
